@@ -330,7 +330,7 @@ pub fn run(run: &mut Run) -> &'static str {
         Case::Explicit { hash_mb, searches } => run_list(*hash_mb, searches, st),
     });
     let sessions = tier.pick(32, 320);
-    let strat = tape(24..60).prop_map(|tape| Session { tape });
+    let strat = tape(60..400).prop_map(|tape| Session { tape });
     run.proptest_part("long_session", RULE, strat, sessions, long_session);
     if let Ok(bin) = std::env::var("VERIF_FAST_BIN") {
         if profile_name() == "checked" && run.only_parts.is_empty() {
